@@ -821,8 +821,23 @@ func c32CheckImported(c *core.Ctx, stage string, i int, want *c32Feature, got b6
 		}
 		gotProps[t.Key] = append(gotProps[t.Key], t.Value.String())
 	}
-	okProps := len(gotProps) == len(want.props)
-	for k, v := range want.props {
+	// A point or path holds its geometry in the tag "point" / "path": a GeoJSON
+	// property of either name on such a feature is don't-care (it may be kept as
+	// a further tag or dropped), but it must never stand in for the geometry,
+	// which the checks above decide.
+	wantProps := want.props
+	if geometryTags > 0 {
+		wantProps = map[string]string{}
+		for k, v := range want.props {
+			if k != b6.PointTag && k != b6.PathTag {
+				wantProps[k] = v
+			}
+		}
+		delete(gotProps, b6.PointTag)
+		delete(gotProps, b6.PathTag)
+	}
+	okProps := len(gotProps) == len(wantProps)
+	for k, v := range wantProps {
 		if vs := gotProps[k]; len(vs) != 1 || vs[0] != v {
 			okProps = false
 		}
